@@ -21,6 +21,13 @@ class MachineryFailure(Exception):
     """The check itself is broken (TLC error, vacuous coverage, harness bug)."""
 
 
+def reraise_if_harness(e):
+    """An exception whose innermost frame is harness code is a fault of the machinery, never of the tool under test."""
+    tb = traceback.extract_tb(e.__traceback__)
+    if tb and os.path.abspath(tb[-1].filename).startswith(os.path.join(VERIF, "harness")):
+        raise MachineryFailure("the harness itself raised %s: %s at %s:%d" % (type(e).__name__, e, tb[-1].filename, tb[-1].lineno))
+
+
 def load_known_findings():
     path = os.path.join(VERIF, "known_findings.json")
     if not os.path.exists(path):
